@@ -49,6 +49,8 @@ def jobs(tier):
                         js.append(("job_abstract", dict(
                             _name="abstract q=%s %s ser=%d%d rejectsZero=%d lens=%s" % (qn, flavour, ser[0], ser[1], rj, ln),
                             qn=qn, flavour=flavour, ser=ser, rej=rj, lens=ln)))
+    from checks import realtier
+    js += realtier.jobs_for("C01", tier)
     return js
 
 
@@ -175,3 +177,5 @@ def oracle_exchange(flavour, ser, pw, idA, idB, x, y, qn=None, w=None):
 
 
 ORACLES = dict(exchange=oracle_exchange)
+from checks.realtier import rt_agree, ORACLES as _RT      # noqa: E402  (job functions are looked up in this module)
+ORACLES.update(_RT)
